@@ -403,10 +403,64 @@ func (concEngine) Corpus() []Case {
 		routes: []gRoute{{gid: -1, methods: get, pattern: "/d0/{id}", main: 100}, {gid: -1, methods: get, pattern: "/s0", main: 101}},
 		reqs:   []ccReq{{"GET", "/d0/7"}, {"GET", "/s0"}, {"GET", "/nope"}, {"GET", "/d0/7"}},
 		sched:  []int{0, 0, 0, 1, 2, 3, 1, 0, 3, 2, 1, 3, 3}})
+	// a capture middleware of one route replaces c.Resp and does not put the old writer back; the requests that are
+	// served by the pooled context afterwards (another route, a 404) must not find the wrapper
+	add("wrap-reuse", gCase{cache: -1,
+		progs:  map[int]string{30: "RR,N", 100: "W:" + hx("secret-of-a"), 101: "W:" + hx("plain")},
+		routes: []gRoute{{gid: -1, methods: get, pattern: "/a", main: 100, useCalls: [][]int{{30}}}, {gid: -1, methods: get, pattern: "/plain", main: 101}},
+		reqs:   []ccReq{{"GET", "/a"}, {"GET", "/plain"}, {"GET", "/nope"}, {"GET", "/a"}},
+		sched:  []int{0, 1, 2, 3}})
+	add("wrap-parked", gCase{cache: 1, mna: true,
+		progs:  map[int]string{1: "P,N", 100: "P,RR,W:64,RR,P,W:65", 101: "W:73,P"},
+		uses:   [][]int{{1}},
+		routes: []gRoute{{gid: -1, methods: get, pattern: "/d0/{id}", main: 100}, {gid: -1, methods: get, pattern: "/s0", main: 101}},
+		reqs:   []ccReq{{"GET", "/d0/7"}, {"GET", "/s0"}, {"POST", "/s0"}, {"GET", "/d0/7"}},
+		sched:  []int{1, 0, 0, 0, 0, 0, 2, 1, 3, 2, 3, 1, 3}})
 	return out
 }
 
 /**************** generator ****************/
+
+// ccwWrapStream (drawn after everything else of the case; one case in six): one or two handlers replace c.Resp by a
+// wrapper (`RR`) and leave it there; in half of the cases request 0 is run to its end first, so that the requests
+// started afterwards get its pooled context.
+func ccwWrapStream(r *Rand, g *gCase) bool {
+	if !r.Chance(1, 6) {
+		return false
+	}
+	var cands []int
+	for _, u := range g.uses {
+		cands = append(cands, u...)
+	}
+	for _, rt := range g.routes {
+		cands = append(cands, rt.main, rt.main)
+		for _, c := range rt.useCalls {
+			cands = append(cands, c...)
+		}
+	}
+	for i, n := 0, r.Range(1, 2); i < n; i++ {
+		id := cands[r.Intn(len(cands))]
+		var acts []string
+		if g.progs[id] != "" {
+			acts = strings.Split(g.progs[id], ",")
+		}
+		p := r.Intn(len(acts) + 1)
+		acts = append(acts[:p:p], append([]string{"RR"}, acts[p:]...)...)
+		g.progs[id] = strings.Join(acts, ",")
+	}
+	if r.Chance(1, 2) {
+		parks := 0
+		for _, p := range g.progs {
+			for _, t := range strings.Split(p, ",") {
+				if t == "P" {
+					parks++
+				}
+			}
+		}
+		g.sched = append(make([]int, parks+1), g.sched...)
+	}
+	return true
+}
 
 // ccxHookStream (drawn after everything else of the case; one case in six): an OnPanic hook that parks (program 80:
 // sets a status, writes a body), and one or two handlers of the chains that panic (`X`). In half of the cases the
@@ -745,12 +799,16 @@ func ccGenCase(r *Rand, thorough bool, nReqForce int) (*gCase, string) {
 		copyStream = true
 	}
 	hookStream := ccxHookStream(r, g, nReq)
+	wrapStream := ccwWrapStream(r, g)
 	tag := fmt.Sprintf("n%d", nReq)
 	if copyStream {
 		tag = "copy/" + tag
 	}
 	if hookStream {
 		tag = "hook/" + tag
+	}
+	if wrapStream {
+		tag = "wrap/" + tag
 	}
 	if g.cache >= 0 {
 		tag += fmt.Sprintf("/cache%d", g.cache)
